@@ -404,11 +404,17 @@ func PFBStream(t *rapid.T) []byte {
 func ProgramText(t *rapid.T) (text []byte, kind string) {
 	cfg := psgen.Config{TypeLiteral: true}
 	var plain string
-	if rapid.Bool().Draw(t, "control") {
+	switch k := rapid.IntRange(0, 2).Draw(t, "programkind"); {
+	case k == 0:
+		// every lexical form, all separators and line ends, DSC comments with
+		// continuation lines (as one procedure body, which is left on the stack)
+		lc, _ := psgen.Lex(t, psgen.LexOpts{})
+		return append(lc.Text, '\n'), "lexical"
+	case k == 1:
 		toks, _ := psgen.Control(t, 40)
 		plain = psgen.Spell(toks)
 		kind = "control"
-	} else {
+	default:
 		toks, _, _ := psgen.Adaptive(t, cfg, 25)
 		plain = psgen.Spell(toks)
 		kind = "data"
